@@ -22,6 +22,12 @@ Props/C20) + OBSERVED real deployment.  Three parts:
      probe `SimulaQronConnection.try_connection` is scripted from outside to consult the fake reactor's listen
      table).  Long spacings (`starve i k`): the QNodeOS of a node is refused k = 21, 25, 60, ... times, one retry
      period apart, before its virtual node listens.
+     NAMED NETWORK: the same bring-up (every start order for n <= 3, random orders, long spacings) for a network
+     that is NOT called "default", stored in one configuration file together with a network "default" whose node
+     names overlap and whose ports and node set differ; right after each process body the oracle `MemWorld._wiring`
+     checks that it listens on ITS network's configured port and connects to ITS network's peers (a QNodeOS: to its
+     own virtual node), `Network(name=...).running` must ask for ITS endpoints; one real deployment per run uses
+     such a file too (nobody may accept connections on the other network's ports).
 (a2) process table.  Real `Network.start/stop` on the fake multiprocessing over
      random start / stop / crash histories vs the model's table.
 (b)  REAL deployment, in child processes only (`c20_child.py`): real
@@ -239,19 +245,36 @@ class FakeTime:
 
 
 class MemWorld:
-    def __init__(self, n, retry_units):
+    def __init__(self, n, retry_units, netname="default"):
+        """netname != "default": the configuration file holds TWO networks -- the one under test (`netname`, nodes
+        N0..N(n-1) on the usual ports) and a network "default" whose node names overlap (N0..N(n-2), plus "Zed" which
+        only "default" has; N(n-1) only exists in `netname` when n >= 2) on OTHER ports.  Everything a process of
+        `netname` does must refer to ITS network's entries."""
         b = self.b = _Boot.get()
         R = b.R
-        self.n, self.retry = n, retry_units
+        self.n, self.retry, self.netname = n, retry_units, netname
         self.names = ["N%d" % i for i in range(n)]
         b.settings._config["conn_retry_time"] = retry_units / UNIT
         self.vport = {i: 8002 + 3 * i for i in range(n)}
         self.qport = {i: 8001 + 3 * i for i in range(n)}
-        cfg = {"default": {"nodes": {nm: {"app_socket": ["localhost", 8000 + 3 * i],
-                                            "qnodeos_socket": ["localhost", self.qport[i]],
-                                            "vnode_socket": ["localhost", self.vport[i]]}
-                                      for i, nm in enumerate(self.names)}, "topology": None}}
-        self.fn = os.path.join(b.cfgdir, "net_%d.json" % n)
+
+        def net_cfg(names, base):
+            return {"nodes": {nm: {"app_socket": ["localhost", base + 3 * i],
+                                   "qnodeos_socket": ["localhost", base + 1 + 3 * i],
+                                   "vnode_socket": ["localhost", base + 2 + 3 * i]}
+                              for i, nm in enumerate(names)}, "topology": None}
+        cfg = {}
+        self.foreign = {}          # port -> "<kind> port of <node> in network <other>"
+        self.qport_of = {netname: {nm: self.qport[i] for i, nm in enumerate(self.names)}}
+        if netname != "default":
+            others = self.names[:max(1, n - 1)] + ["Zed"]
+            cfg["default"] = net_cfg(others, 8300)
+            for nm, e in cfg["default"]["nodes"].items():
+                for kind in ("app", "qnodeos", "vnode"):
+                    self.foreign[e[kind + "_socket"][1]] = "%s port of %s in network 'default'" % (kind, nm)
+            self.qport_of["default"] = {nm: e["qnodeos_socket"][1] for nm, e in cfg["default"]["nodes"].items()}
+        cfg[netname] = net_cfg(self.names, 8000)
+        self.fn = os.path.join(b.cfgdir, "net_%d_%s.json" % (n, netname))
         with open(self.fn, "w") as f:
             json.dump(cfg, f)
         b.settings._config["network_config_file"] = self.fn
@@ -265,12 +288,13 @@ class MemWorld:
         class FakeConn:
             @staticmethod
             def try_connection(name, socket_address=None, network_name=None):
-                i = world.names.index(name)
-                if world.qport[i] not in world.listening():
+                # the endpoint the real probe would look up: node `name` of network `network_name` of the file
+                port = world.qport_of[network_name or "default"][name]
+                if port not in world.listening():
                     raise ConnectionRefusedError(111, "Connection refused")     # what socket.connect raises
         b.NW.SimulaQronConnection = FakeConn
         self._reset_reactor()
-        self.net = b.NW.Network(name="default", network_config_file=self.fn, new=False)
+        self.net = b.NW.Network(name=netname, network_config_file=self.fn, new=False)
         self.problems = []         # oracle findings (key, what)
         self.prev_conn = {}
         self.prev_listen = set()
@@ -313,6 +337,12 @@ class MemWorld:
             if key is None:
                 owner = [i for i in range(self.n) if self.vport[i] == port]
                 key = (owner[0], owner[0], True) if owner else ("?", port, True)
+            if key[0] == "?":
+                # nobody of THIS network lives there: the attempt is left alone (never decided)
+                self.problems.append(("mem:connects-outside-its-network",
+                                      "a process of network '%s' tries to connect to port %d = %s" % (
+                                          self.netname, port, self.foreign.get(port, "not a configured port"))))
+                continue
             if key in self.open:
                 self.problems.append(("mem:duplicate-attempt", "two open attempts with key %r" % (key,)))
             self.open[key] = (factory, connector)
@@ -341,6 +371,41 @@ class MemWorld:
     def proc(self, k):
         return self.net.processes[k]
 
+    def _body(self, p, role, i):
+        """run a process body; an exception ends that process (as it would end the OS process)"""
+        try:
+            p._target(*p._args)
+            return True
+        except core.MachineryError:
+            raise
+        except Exception as e:                                    # noqa: BLE001 -- whatever it is, the process is gone
+            self.problems.append(("mem:process-body-raises", "the %s process of node %s in network '%s' ends with %s: %s" % (
+                role, self.names[i], self.netname, type(e).__name__, str(e)[:160])))
+            p.die()
+            self.b.stops[0] = 0
+            self.b.R.hasStopped = False
+            return False
+
+    def _wiring(self, i, role, before, c0, listen_want, connect_want):
+        """oracle, right after a process body ran: it listens on ITS network's configured port (and on nothing
+        else), and the connections it tries go to ITS network's configured ports: a virtual node to every other
+        virtual node of the network, a QNodeOS to its own virtual node"""
+        new = set(self.listening()) - before
+        ports = {e[1] for e in self.b.R.tcpClients[c0:]}
+        who = "the %s process of node %s in network '%s'" % (role, self.names[i], self.netname)
+
+        def say(ps):
+            return sorted("%d (%s)" % (q, self.foreign.get(q, "own network" if q in set(self.vport.values()) | set(
+                self.qport.values()) else "not configured")) for q in ps)
+        if not self.proc(2 * i + (1 if role == "QNodeOS" else 0)).is_alive():
+            return                  # its body raised (reported there)
+        if new != listen_want:
+            self.problems.append(("mem:listens-on-wrong-port", "%s listens on %s instead of %s" % (
+                who, say(new), sorted(listen_want))))
+        if ports != connect_want:
+            self.problems.append(("mem:connects-to-wrong-ports", "%s tries to connect to %s instead of %s" % (
+                who, say(ports), sorted(connect_want))))
+
     def op(self, line):
         """execute one op on the real code; returns the canonical observation (as the model prints it)"""
         w = line.split()
@@ -356,7 +421,12 @@ class MemWorld:
             self._reset_reactor()
             return self.obs()
         if w[0] == "running":
-            ans = bool(self.net.running)
+            try:
+                ans = bool(self.net.running)
+            except (KeyError, ValueError) as e:      # the probe asked for a node / network the file does not have
+                self.problems.append(("mem:running-raises", "Network('%s').running raised %s: %s" % (
+                    self.netname, type(e).__name__, e)))
+                ans = False
             return self.obs() + " ans=%d" % ans
         if w[0] == "startV":
             i = int(w[1])
@@ -364,11 +434,14 @@ class MemWorld:
             if not (p.is_alive() and not p.up):
                 return "bad-event"
             p.up = True
-            p._target(*p._args)                       # start_vnode.main(name, network_name, log_level)
-            self._expect_stops(1, "start_vnode.main(%s)" % self.names[i])   # MemoryReactor.run() stops itself once
+            before, c0 = set(self.listening()), len(R.tcpClients)
+            if self._body(p, "virtual node", i):      # start_vnode.main(name, network_name, log_level)
+                self._expect_stops(1, "start_vnode.main(%s)" % self.names[i])   # MemoryReactor.run() stops itself once
             fac = self.listening().get(self.vport[i])
-            if fac is not None:
+            if fac is not None and self.vport[i] not in before:
                 self.nodes[i] = fac.root
+            self._wiring(i, "virtual node", before, c0, {self.vport[i]},
+                         {self.vport[j] for j in range(self.n) if j != i})
             self._scan()
             return self.obs()
         if w[0] == "startQ":
@@ -377,9 +450,12 @@ class MemWorld:
             if not (p.is_alive() and not p.up):
                 return "bad-event"
             p.up = True
-            p._target(*p._args)                       # start_qnodeos.main(...)
-            self._expect_stops(1, "start_qnodeos.main(%s)" % self.names[i])
+            before, c0 = set(self.listening()), len(R.tcpClients)
+            if self._body(p, "QNodeOS", i):           # start_qnodeos.main(...)
+                self._expect_stops(1, "start_qnodeos.main(%s)" % self.names[i])
             self.qup.add(i)
+            # (it listens for hosts only once it is connected to its virtual node: nothing new listens yet)
+            self._wiring(i, "QNodeOS", before, c0, set(), {self.vport[i]})
             self._scan()
             return self.obs()
         if w[0] in ("resolveP", "resolveQ"):
@@ -498,8 +574,8 @@ class MemRun:
     `settle` = "each pending attempt fires once more": rounds of (tick retry; decide every open attempt), at most 4,
     until nothing is pending (expanded into concrete tick/resolve lines for the model)."""
 
-    def __init__(self, n, retry):
-        self.world = MemWorld(n, retry)
+    def __init__(self, n, retry, net="default"):
+        self.world = MemWorld(n, retry, net)
         self.n, self.retry = n, retry
         self.mops = []
         self.lines = ["world %d %d" % (n, retry)]
@@ -618,10 +694,10 @@ def _judge_mem_final(world, rounds):
     return bad
 
 
-def _mem_exec(n, retry, mops, eager=False):
+def _mem_exec(n, retry, mops, eager=False, net="default"):
     """eager: after every process body every open attempt OTHER than a QNodeOS -> own virtual node attempt that would
     be refused is decided at once (those are left to `starve`)"""
-    run = MemRun(n, retry)
+    run = MemRun(n, retry, net)
     try:
         for m in mops:
             run.do(m)
@@ -636,14 +712,14 @@ def _mem_exec(n, retry, mops, eager=False):
     return run
 
 
-def _mem_scenario(res, ctx, n, retry, orders, policy, again=None, probe=False):
+def _mem_scenario(res, ctx, n, retry, orders, policy, again=None, probe=False, net="default"):
     """one world: per cycle netstart -> the 2n bodies in the given order, the adversary deciding attempts and
     moving the clock per `policy` -> settle -> running -> netstop.  again = (cycle, k): in that cycle start() is called
     once more on the RUNNING network after k of the bodies ran (it must leave everything alone).  probe: the real
     `Network.running` is asked (and judged, and compared with the model) in every partial state: after start(), after
     every body + the adversary's moves that follow it, and after every QNodeOS decision of the final settle"""
     rng = ctx.rng
-    run = MemRun(n, retry)
+    run = MemRun(n, retry, net)
     w = run.world
     try:
         if probe:
@@ -804,7 +880,8 @@ def _shrink(replay, key, budget=400):
             if left[0] <= 0:
                 return False
             left[0] -= 1
-            return any(k == key for k, _ in _mem_exec(replay["n"], replay["retry"], mops, replay.get("eager", False)).viol)
+            return any(k == key for k, _ in _mem_exec(replay["n"], replay["retry"], mops, replay.get("eager", False),
+                                                      replay.get("net", "default")).viol)
         return dict(replay, ops=_ddmin(replay["ops"], fails))
     if replay.get("kind") == "prog":
         from . import c20_prog
@@ -935,8 +1012,8 @@ def _deploy(spec, timeout):
         if cfgev:
             import socket
             time.sleep(0.05)
-            for kind in ("qnodeos", "vnode"):
-                for nm, port in cfgev[0][kind].items():
+            for kind in ("qnodeos", "vnode", "foreign"):
+                for nm, port in (cfgev[0].get(kind) or {}).items():
                     s = socket.socket(socket.AF_INET, socket.SOCK_STREAM)
                     s.settimeout(1)
                     try:
@@ -1021,8 +1098,13 @@ def _judge_deploy(spec, events, leftovers):
             elif any(v != ["ok", True] for v in co["first"].values()):
                 notes.append("cycle %d: running was true %.2f s before every check_connections was" % (c, co["after"]))
             ac = by.get(("accepting", c))
-            if ac is None or not all(ac["qnodeos"].values()) or not all(ac["alive"]):
+            if ac is None or not all(ac["qnodeos"].values()) or not all(ac["alive"]) or \
+                    not all(ac.get("vnode", {"-": True}).values()):
                 viol.append(("deploy:not-accepting", "cycle %d: %s" % (c, ac)))
+            if ac is not None and ac.get("foreign"):
+                viol.append(("deploy:listens-in-other-network", "cycle %d: processes of network '%s' accept connections on "
+                             "ports the file gives to network 'default': %s" % (c, spec.get("network", "default"),
+                                                                                ac["foreign"])))
             for e in events:
                 if e.get("ev") == "program" and e.get("cycle") == c:
                     want = ["ok", [1, 0]] if e["kind"] == "sdk" else ["ok", 1]
@@ -1101,7 +1183,9 @@ def run(ctx):
                 "2 start/stop cycles each (a third of them with start() called once more on the running network), state "
                 "compared with the model after every event, the real Network.running asked and judged in every partial "
                 "state (after every process body and every QNodeOS decision); long spacings: a QNodeOS refused 21..3x(10 s / "
-                "retry time) times before its virtual node listens; (a2) process table: random start/stop/crash histories n=1..5 "
+                "retry time) times before its virtual node listens; named network: all start orders n<=3 (+ a third of the random "
+                "and long-spacing worlds, one real deployment) on a network not called 'default' in a file that also holds a "
+                "'default' network with overlapping node names on other ports; (a2) process table: random start/stop/crash histories n=1..5 "
                 "incl. start on a running network; (a3) get_connection / send_qubit issued while the peer stays down for "
                 "0..3 retry periods; (a4) programs during partial bring-up: 3 nodes (thorough: also 4), every start order x "
                 "every reachable non-empty set of still-missing directed connections x spacings/retry periods {1,4,8,16}/16 s, "
@@ -1135,15 +1219,17 @@ def run(ctx):
                     names = ["Alice", "Bob", "Charlie", "David", "Eve"][:n]
                     deploy_specs.append({"names": names, "wait": wait, "cycles": 3, "program": "sdk" if wait else "pb",
                                          "epr": n >= 2 and wait, "stop_early": [] if wait else [1],
-                                         "double_start": [0, 2] if wait else [1]})
+                                         "double_start": [0, 2] if wait else [1],
+                                         "network": "lab" if (n + wait) % 2 == 0 else "default"})
         else:
             deploy_specs = [
                 # cycle 0: start(wait); start; programs; stop
                 {"names": ["Alice", "Bob"], "wait": True, "cycles": 2, "program": "both", "epr": True, "stop_early": [],
                  "double_start": [0]},
                 # cycle 1: start; start; stop at once
+                # (a network NOT called "default"; the file also holds a "default" network: N0, N1, Zed on other ports)
                 {"names": ["N0", "N1", "N2"], "wait": False, "cycles": 3, "program": "pb", "epr": False,
-                 "stop_early": [1], "double_start": [1]},
+                 "stop_early": [1], "double_start": [1], "network": "lab"},
             ]
     deploy_results = [None] * len(deploy_specs)
 
@@ -1246,26 +1332,30 @@ def _run_mem(ctx, res, rng, add_viol, batches, extra):
     def starts(n):
         return ["startV %d" % i for i in range(n)] + ["startQ %d" % i for i in range(n)]
 
-    def mem(n, retry, orders, policy, tag, again=None, probe=False):
-        run = _mem_scenario(res, ctx, n, retry, orders, policy, again, probe)
+    def mem(n, retry, orders, policy, tag, again=None, probe=False, net="default"):
+        run = _mem_scenario(res, ctx, n, retry, orders, policy, again, probe, net)
         if again is not None:
             res.count("mem-start-on-running-network")
         if probe:
             res.count("mem-running-asked-in-every-partial-state")
             res.count("mem-running-probes", sum(1 for l in run.lines if l == "running"))
         case = {"n": n, "retry": retry, "policy": policy, "ops": run.mops}
+        if net != "default":
+            case["net"] = net
+            res.count("mem-network-not-called-default")
         res.case(case, nontrivial=n >= 2)
         res.count("mem-n%d-%s" % (n, policy))
         res.count("mem-events", len(run.lines))
         for key, what in run.viol:
-            add_viol(key, "in-memory, %d nodes: %s" % (n, what),
-                     {"kind": "mem", "n": n, "retry": retry, "policy": policy, "tag": tag, "ops": run.mops})
-        batches.append((run.lines, run.outs, {"n": n, "retry": retry, "policy": policy, "tag": tag}, "mem"))
+            add_viol(key, "in-memory, %d nodes%s: %s" % (n, "" if net == "default" else ", network '%s' (the file also holds a "
+                                                          "network 'default' with overlapping node names)" % net, what),
+                     {"kind": "mem", "n": n, "retry": retry, "policy": policy, "tag": tag, "net": net, "ops": run.mops})
+        batches.append((run.lines, run.outs, {"n": n, "retry": retry, "policy": policy, "tag": tag, "net": net}, "mem"))
 
     if ctx.replay:
         inp = ctx.replay["input"]
         if inp.get("kind") == "mem":
-            run = _mem_exec(inp["n"], inp["retry"], inp["ops"], inp.get("eager", False))
+            run = _mem_exec(inp["n"], inp["retry"], inp["ops"], inp.get("eager", False), inp.get("net", "default"))
             res.case({"replay": inp["ops"]})
             for key, what in run.viol:
                 add_viol(key, "in-memory, %d nodes: %s" % (inp["n"], what), inp)
@@ -1317,6 +1407,22 @@ def _run_mem(ctx, res, rng, add_viol, batches, extra):
                 mem(n, retry, [list(order), list(reversed(order))], policy, "exhaustive", again, probe=True)
     res.exhaustive = True
     res.notes.append("exhaustive: all %d start orders for n=1,2,3 x {eager,lazy}" % (2 + 24 + 720))
+    # (a1'') the same bring-up for a network that is NOT called "default", stored in one file with a network
+    # "default" whose node names overlap and whose ports and node set differ: every start order for n <= 3 (policy
+    # and retry time alternate, one start/stop cycle + a second one in every fourth world).  Judged as above (the
+    # model does not know names: same lines), plus, right after each process body: it listens on ITS network's port
+    # and connects to ITS network's peers (`MemWorld._wiring`); Network(name=...).running asks for ITS endpoints.
+    t_named = time.time()
+    for n in (1, 2, 3):
+        for order in itertools.permutations(starts(n)):
+            count += 1
+            policy = ("eager", "lazy")[count % 2]
+            orders = [list(order)] + ([list(reversed(order))] if count % 4 == 0 else [])
+            again = (0, (count // 5) % (2 * n + 1)) if count % 5 == 0 else None
+            mem(n, retries[count % 4], orders, policy, "named-network", again, probe=count % 3 == 0,
+                net=("lab", "net2", "Default")[count % 3])
+    res.notes.append("named network: all %d start orders for n=1,2,3 on a network not called 'default' (two networks with "
+                     "overlapping node names in the file), %.1f s" % (2 + 24 + 720, time.time() - t_named))
     # random orders / spacings
     for n, k in ((2, ctx.scale(30, 300)), (3, ctx.scale(40, 600)), (4, ctx.scale(40, 3000)), (5, ctx.scale(30, 1500))):
         for _ in range(k):
@@ -1327,7 +1433,7 @@ def _run_mem(ctx, res, rng, add_viol, batches, extra):
                 orders.append(o)
             again = (rng.randrange(2), rng.randrange(2 * n + 1)) if rng.random() < 0.3 else None
             mem(n, rng.choice(retries), orders, rng.choice(["random", "random", "eager", "lazy"]), "random", again,
-                probe=rng.random() < 0.5)
+                probe=rng.random() < 0.5, net=rng.choice(["default", "default", "lab"]))
 
     # (a1') long spacings: the QNodeOS process of a node is up long before its virtual node listens -- 21, 25, 60 (and
     # one more than / five more than / three times `_TIMEOUT / conn_retry_time`) refused attempts, one retry period
@@ -1354,8 +1460,9 @@ def _run_mem(ctx, res, rng, add_viol, batches, extra):
                 mops += others[cut1:cut2]
                 mops.append("starve %d %d" % (i, k - split))
                 mops += ["startV %d" % i] + others[cut2:] + ["settle", "running", "netstop"]
-                run = _mem_exec(n, retry, mops, eager=True)
-                case = {"n": n, "retry": retry, "policy": "starve", "ops": run.mops}
+                net = "lab" if (k + n + retry) % 3 == 0 else "default"
+                run = _mem_exec(n, retry, mops, eager=True, net=net)
+                case = {"n": n, "retry": retry, "policy": "starve", "ops": run.mops, "net": net}
                 res.case(case, nontrivial=True)
                 res.count("mem-qnodeos-%s-retry-periods-before-its-vnode" % (
                     "over-3x-timeout" if k >= 3 * period else "over-timeout"))
@@ -1364,7 +1471,7 @@ def _run_mem(ctx, res, rng, add_viol, batches, extra):
                     add_viol(key, "in-memory, %d nodes, QNodeOS of node %d refused %d times (retry %d/16 s) before its "
                              "virtual node came up: %s" % (n, i, k, retry, what),
                              {"kind": "mem", "n": n, "retry": retry, "policy": "starve", "tag": "long-spacing", "eager": True,
-                              "ops": run.mops})
+                              "net": net, "ops": run.mops})
                 batches.append((run.lines, run.outs, {"n": n, "retry": retry, "policy": "starve", "ops": run.mops}, "mem"))
 
     # (a3) an operation that needs a peer is issued while that peer's virtual node stays down for `down` clock units
